@@ -1,7 +1,38 @@
 """C14 -- text validators accept exactly the well-formed strings of their encoding."""
-import os, re, sys, itertools
+import os, re, sys, itertools, time, glob, codecs
 import vlib
 from vlib import hexs, unhex
+
+META = dict(
+    property_id='C14',
+    design_ref='DESIGN.md section 4, C14',
+    technique='Coq proof (case analysis per lead-byte class against the RFC 3629 ABNF as an inductive predicate, induction over strings, '
+              '256-point sweeps over source-generated leaf functions) + extracted-model correspondence + reference-decoder oracle; '
+              'native 2^32 four-byte sweep in the thorough tier',
+    level_text=('Theorems in coq/C14/Props.v, for all byte strings: cppcms::utf8::next (both modes) and booster utf_traits<char>::decode return '
+                'a code point exactly on one UTF8-char of the RFC 3629 section 4 ABNF (inductive predicate Seq) followed by an arbitrary rest, '
+                'with its scalar value, in HTML mode exactly when the value is no C0 control other than tab/LF/CR, not DEL, no C1 control; what is accepted '
+                'is the shortest-form encoding of a scalar value (<= U+10FFFF, no surrogate); a truncated sequence is never accepted; '
+                'utf8::validate = true iff the string is *(UTF8-char) (HTML variant: all code points html_safe); the reported count = incoming '
+                'count + number of code points of the unique decomposition; the two decoders agree on every input (incomplete collapsed to illegal, '
+                'same iterator position); encode/decode are inverse on valid data. Single-byte: for all 17 validator bodies GENERATED from '
+                'private/encoding_validators.h (36 table names): 0x20..0x7E, tab, LF, CR accepted, other C0 and DEL rejected, C1 rejected for '
+                'every ISO-8859 name; valid(a++b) = valid a && valid b; encoding::valid by name = forallb of the generated predicate with count = '
+                'length. validate_or_filter (UTF-8 and single-byte): returns true iff the input is valid, else the output is valid (for no replacement '
+                'or an acceptable replacement character), idempotent, only deletes when there is no replacement. booster utf_to_utf<char,char>: skip yields '
+                'well-formed text (a subsequence, identity on well-formed input), stop throws iff malformed. Form text widgets (form.cpp base_text): '
+                'valid iff the value is valid for the locale encoding and the number of code points is within the limits. Encoding names: equivalent '
+                'iff equal after normalisation; comparator is a strict weak order. Leafs utf::valid, is_trail, trail_length, width (both copies), the 17 loop bodies '
+                'and the name-normalisation step are regenerated from source on every run and proved equal to the model leafs.'),
+    level_note=('Trusted: Coq kernel + vm_compute; cxx2v translator (extended in checks/C14.py for the validator loop shape) and clang AST; '
+                'ExtrOcamlBasic extraction; the decoder switch/loops, validators_set table, validate_or_filter loops are modelled by hand and '
+                'tied by correspondence (all 1- and 2-byte sequences, boundary grid of 3/4-byte sequences, all 256 bytes and all byte pairs per '
+                'name, composed random strings, form submissions through a real http::context), every tier: every 1..3-byte sequence natively under ASan '
+                'against a table-driven reference, thorough tier: every 4-byte sequence as well. Oracles use '
+                'Python 3 strict UTF-8 and the stdlib code-page tables as references. Not covered: iconv/ICU fall-back for names without a '
+                'built-in validator (oracle-only samples for windows-1254), the std::locale -> encoding-name step of valid(locale,...) '
+                '(exercised for 14 locale names, not modelled), the file-name validation of the upload widget.'),
+)
 
 # ------------------------------------------------------------------------------------------------
 # T: leaf functions regenerated from the current headers (extends tools/cxx2v.py in this file only)
@@ -210,3 +241,965 @@ def gen_c14():
     with vlib.Lock('gen-Gen_C14'):
         vlib.write_if_changed(out, txt)
     return err
+
+
+# ------------------------------------------------------------------------------------------------
+# references used by the oracles (independent of model and implementation)
+# ------------------------------------------------------------------------------------------------
+# RFC 3629 section 4, UTF8-char
+U8CHAR = re.compile(rb'[\x00-\x7F]|[\xC2-\xDF][\x80-\xBF]|\xE0[\xA0-\xBF][\x80-\xBF]|[\xE1-\xEC][\x80-\xBF]{2}|'
+                    rb'\xED[\x80-\x9F][\x80-\xBF]|[\xEE\xEF][\x80-\xBF]{2}|\xF0[\x90-\xBF][\x80-\xBF]{2}|'
+                    rb'[\xF1-\xF3][\x80-\xBF]{3}|\xF4[\x80-\x8F][\x80-\xBF]{2}', re.S)
+
+
+def html_safe(c):
+    return c in (9, 10, 13) or (c >= 0x20 and c != 0x7F and not (0x80 <= c <= 0x9F))
+
+
+def ref_next(s):
+    """(code point, length) of the UTF8-char at the start of s, or None"""
+    m = U8CHAR.match(s)
+    if not m:
+        return None
+    return ord(m.group(0).decode('utf-8')), m.end()
+
+
+def ref_cps(s):
+    """list of code points when s is well-formed UTF-8 (Python strict decoder = RFC 3629), else None"""
+    try:
+        return [ord(ch) for ch in s.decode('utf-8')]
+    except UnicodeDecodeError:
+        return None
+
+
+def ref_valid(s, html):
+    cps = ref_cps(s)
+    if cps is None:
+        return None
+    if html and not all(html_safe(c) for c in cps):
+        return None
+    return len(cps)
+
+
+def why_malformed(s):
+    """names the class of malformed sequence at the start of s (for finding keys)"""
+    if not s:
+        return 'empty'
+    a = s[0]
+    if 0x80 <= a <= 0xBF:
+        return 'lone-trail-byte'
+    if a in (0xC0, 0xC1):
+        return 'overlong-2'
+    if a >= 0xF5:
+        return 'lead-above-f4'
+    need = 2 if a < 0xE0 else 3 if a < 0xF0 else 4
+    t = s[1:need]
+    if any(not (0x80 <= x <= 0xBF) for x in t):
+        return 'bad-trail-byte'
+    if len(s) < need:
+        return 'truncated'
+    if a == 0xE0 and s[1] < 0xA0:
+        return 'overlong-3'
+    if a == 0xF0 and s[1] < 0x90:
+        return 'overlong-4'
+    if a == 0xED and s[1] >= 0xA0:
+        return 'surrogate'
+    if a == 0xF4 and s[1] >= 0x90:
+        return 'above-10ffff'
+    return 'other'
+
+
+def norm_name(b):
+    """encodings_comparator: letters (lower-cased) and digits up to the first NUL"""
+    out = []
+    for c in b:
+        if c == 0:
+            break
+        if 48 <= c <= 57 or 97 <= c <= 122:
+            out.append(c)
+        elif 65 <= c <= 90:
+            out.append(c + 32)
+    return bytes(out).decode('ascii')
+
+
+# normalised table name -> Python codec holding the code page (None: ASCII, 'utf8': the UTF-8 validator)
+TABLE = {'latin1': 'iso8859-1', 'utf8': 'utf8', 'usascii': None, 'ascii': None, 'koi8r': 'koi8-r', 'koi8u': 'koi8-u'}
+for _n in (1, 2, 3, 4, 5, 6, 7, 8, 9, 10, 11, 13, 14, 15, 16):
+    TABLE['iso8859%d' % _n] = 'iso8859-%d' % _n
+for _n in (1250, 1251, 1252, 1253, 1255, 1256, 1257, 1258):
+    TABLE['windows%d' % _n] = 'cp%d' % _n
+    TABLE['cp%d' % _n] = 'cp%d' % _n
+ISO_NAMES = set(n for n in TABLE if n.startswith('iso8859') or n == 'latin1')
+_SBREF = {}
+
+
+def sb_ref(nname):
+    """256 booleans: the byte is text in this code page: tab, LF, CR or a printable ASCII character, or a byte above 0x7F that
+    the code page assigns (Python's stdlib tables, generated from the Unicode mapping files) to something that is not a control"""
+    if nname not in _SBREF:
+        codec = TABLE[nname]
+        r = []
+        for b in range(256):
+            if b in (9, 10, 13):
+                ok = True
+            elif b < 0x20 or b == 0x7F:
+                ok = False
+            elif b < 0x7F:
+                ok = True
+            elif codec is None:
+                ok = False
+            else:
+                try:
+                    ch = ord(bytes([b]).decode(codec))
+                    ok = not (0x80 <= ch <= 0x9F)
+                except UnicodeDecodeError:
+                    ok = False
+            r.append(ok)
+        _SBREF[nname] = r
+    return _SBREF[nname]
+
+
+def bits_to_bools(h, n=256):
+    v = int(h, 16)
+    return [bool((v >> (n - 1 - i)) & 1) for i in range(n)]
+
+
+def ref_filter_utf8(s, repl):
+    """token-wise image (Props.filter_utf8_tokenwise): HTML-safe UTF8-char copied, unsafe UTF8-char replaced as a whole, and where
+    no UTF8-char starts one byte replaced"""
+    out = bytearray()
+    rp = bytes([repl]) if repl else b''
+    i = 0
+    while i < len(s):
+        m = U8CHAR.match(s, i)
+        if m:
+            if html_safe(ord(m.group(0).decode('utf-8'))):
+                out += m.group(0)
+            else:
+                out += rp
+            i = m.end()
+        else:
+            out += rp
+            i += 1
+    return bytes(out)
+
+
+def is_subseq(o, s):
+    it = iter(s)
+    return all(any(x == y for y in it) for x in o)
+
+
+# ------------------------------------------------------------------------------------------------
+# generators
+# ------------------------------------------------------------------------------------------------
+GRIDV = [0x00, 0x7F, 0x80, 0xBF, 0xC0, 0xFF]
+BOUNDARY_CPS = [0, 1, 8, 9, 10, 11, 12, 13, 14, 0x1F, 0x20, 0x7E, 0x7F, 0x80, 0x85, 0x9F, 0xA0, 0xFF, 0x7FF, 0x800, 0xFFF, 0x1000,
+                0xCFFF, 0xD000, 0xD7FF, 0xE000, 0xFFFD, 0xFFFE, 0xFFFF, 0x10000, 0x3FFFF, 0x40000, 0xFFFFF, 0x100000, 0x10FFFF]
+BAD_PIECES = [b'\x80', b'\xbf', b'\xc0\x80', b'\xc1\xbf', b'\xc2', b'\xc2\x7f', b'\xc2\xc0', b'\xdf', b'\xe0\x80\x80', b'\xe0\x9f\xbf',
+              b'\xe0\xa0', b'\xe0', b'\xe2\x82', b'\xe2\x28\xa1', b'\xe2\x82\x28', b'\xed\xa0\x80', b'\xed\xbf\xbf', b'\xed\xa0',
+              b'\xef\xbf', b'\xf0\x80\x80\x80', b'\xf0\x8f\xbf\xbf', b'\xf0\x90\x80', b'\xf0\x9f\x98', b'\xf0\x9f', b'\xf0',
+              b'\xf0\x28\x8c\xbc', b'\xf0\x90\x28\xbc', b'\xf0\x90\x8c\x28', b'\xf4\x90\x80\x80', b'\xf4\xbf\xbf\xbf', b'\xf4\x8f\xbf',
+              b'\xf5\x80\x80\x80', b'\xf7\xbf\xbf\xbf', b'\xf8\x88\x80\x80\x80', b'\xfc\x84\x80\x80\x80\x80', b'\xfe', b'\xff',
+              b'\xc0\xaf', b'\xe0\x80\xaf', b'\xf0\x80\x80\xaf', b'\xed\xa0\x80\xed\xb0\x80']
+CTRL_PIECES = [bytes([c]) for c in (0, 1, 8, 11, 12, 14, 0x1B, 0x1F, 0x7F)] + [b'\xc2\x80', b'\xc2\x85', b'\xc2\x9f']
+TABLE_NAMES = ['latin1', 'iso88591', 'iso88592', 'iso88594', 'iso88595', 'iso88599', 'iso885910', 'iso885913', 'iso885914', 'iso885915',
+               'iso885916', 'iso88593', 'iso88596', 'iso88597', 'iso88598', 'iso885911', 'windows1250', 'windows1251', 'windows1252',
+               'windows1253', 'windows1255', 'windows1256', 'windows1257', 'windows1258', 'cp1250', 'cp1251', 'cp1252', 'cp1253', 'cp1255',
+               'cp1256', 'cp1257', 'cp1258', 'koi8r', 'koi8u', 'utf8', 'usascii', 'ascii']
+PRETTY = {'latin1': ['Latin1', 'LATIN-1', 'latin_1'], 'utf8': ['UTF-8', 'utf-8', 'Utf_8', 'UTF8', 'u.t.f.8'], 'usascii': ['US-ASCII', 'us-ascii'],
+          'ascii': ['ASCII', 'Ascii'], 'koi8r': ['KOI8-R', 'koi8-r'], 'koi8u': ['KOI8-U']}
+UNKNOWN_NAMES = [b'', b'utf', b'utf16', b'utf-16', b'utf88', b'8', b'utf8x', b'xutf8', b'iso885912', b'iso8859', b'iso-8859-17', b'cp1254',
+                 b'windows-1254', b'cp125', b'cp12500', b'euc-jp', b'shift_jis', b'koi8', b'koi8-ru', b'latin2', b'latin', b'asci', b'ascii7',
+                 b'\x00utf8', b'---', b'u\x00tf8']
+
+
+def rand_valid_char(rng):
+    r = rng.random()
+    if r < 0.35:
+        c = rng.randrange(0x20, 0x7F)
+    elif r < 0.5:
+        c = rng.choice(BOUNDARY_CPS)
+        if c < 0x20 and c not in (9, 10, 13) or c == 0x7F or 0x80 <= c <= 0x9F:
+            c = rng.choice((9, 10, 13, 0xA0))
+    elif r < 0.65:
+        c = rng.randrange(0xA0, 0x800)
+    elif r < 0.85:
+        c = rng.randrange(0x800, 0x10000)
+        if 0xD800 <= c <= 0xDFFF:
+            c = 0xD7FF
+    else:
+        c = rng.randrange(0x10000, 0x110000)
+    return chr(c).encode('utf-8')
+
+
+def mix(rng, npieces, p_bad, p_ctrl):
+    out = []
+    for _ in range(npieces):
+        r = rng.random()
+        if r < p_bad:
+            if rng.random() < 0.7:
+                out.append(rng.choice(BAD_PIECES))
+            else:
+                out.append(bytes(rng.getrandbits(8) for _ in range(rng.randrange(1, 4))))
+        elif r < p_bad + p_ctrl:
+            out.append(rng.choice(CTRL_PIECES))
+        else:
+            out.append(rand_valid_char(rng))
+    return b''.join(out)
+
+
+def name_variants(rng, base, k):
+    """spellings that normalise to the same key: case changes, inserted punctuation/space/high bytes, trailing NUL + junk"""
+    out = [base.encode()] + [x.encode() for x in PRETTY.get(base, [])]
+    m = re.match(r'(iso8859)(\d+)$', base)
+    if m:
+        out += [('ISO-8859-' + m.group(2)).encode(), ('Iso_8859_' + m.group(2)).encode()]
+    m = re.match(r'(windows|cp)(\d+)$', base)
+    if m:
+        out += [(m.group(1).upper() + '-' + m.group(2)).encode(), (m.group(1).capitalize() + '_' + m.group(2)).encode()]
+    for _ in range(k):
+        v = bytearray()
+        for ch in base.encode():
+            while rng.random() < 0.25:
+                v.append(rng.choice(b'-_ .:/\x80\xff\x01@[`{'))
+            v.append(ch - 32 if 97 <= ch <= 122 and rng.random() < 0.5 else ch)
+        if rng.random() < 0.3:
+            v += b'\x00' + bytes(rng.choice(b'abz019-') for _ in range(rng.randrange(0, 4)))
+        out.append(bytes(v))
+    return out
+
+
+def sb_string(rng, nname, n, p_bad):
+    """a string for a single-byte code page: mostly accepted bytes, some rejected ones"""
+    ref = sb_ref(nname)
+    good = [b for b in range(256) if ref[b]]
+    bad = [b for b in range(256) if not ref[b]]
+    return bytes(rng.choice(bad) if rng.random() < p_bad else rng.choice(good) for _ in range(n))
+
+
+def gen_cases(ctx):
+    rng = ctx.rng
+    cases = []
+    # ---- decoders: exhaustive short sequences, boundary grid ----
+    cases.append('nx -')
+    for a in range(256):
+        cases.append('nx %02x' % a)
+    for a in range(256):
+        for b in range(256):
+            cases.append('nx %02x%02x' % (a, b))
+    leads = list(range(0xC0, 0x100)) + [0x00, 0x7F, 0x80, 0xBF] if ctx.quick() else list(range(256))
+    for a in leads:
+        for b in range(256):
+            cases.append('grid %02x %02x' % (a, b))
+    # every boundary code point, its neighbours in byte space, every truncation, with a tail
+    for c in BOUNDARY_CPS + [0xD800, 0xDBFF, 0xDC00, 0xDFFF, 0x110000, 0x1FFFFF]:
+        cases.append('enc %x' % c)
+        if c < 0x110000 and not (0xD800 <= c <= 0xDFFF):
+            e = chr(c).encode('utf-8')
+            for k in range(1, len(e) + 1):
+                cases.append('nx ' + hexs(e[:k]))
+            for i in range(len(e)):
+                for d in (-1, 1):
+                    m = bytearray(e)
+                    m[i] = (m[i] + d) & 0xFF
+                    cases.append('nx ' + hexs(bytes(m) + b'A'))
+            cases.append('nx ' + hexs(e + b'\x80'))
+    for p in BAD_PIECES + CTRL_PIECES:
+        cases.append('nx ' + hexs(p))
+        cases.append('nx ' + hexs(p + b'\x80\x80'))
+    for _ in range(ctx.scale(20000, 400000)):
+        r = rng.random()
+        if r < 0.4:
+            s = rand_valid_char(rng) + bytes(rng.getrandbits(8) for _ in range(rng.randrange(0, 3)))
+        elif r < 0.7:
+            lead = rng.choice((0xE0, 0xED, 0xF0, 0xF4, 0xC2, 0xDF, 0xE1, 0xEC, 0xEE, 0xEF, 0xF1, 0xF3))
+            s = bytes([lead]) + bytes(rng.choice((0x7F, 0x80, 0x8F, 0x90, 0x9F, 0xA0, 0xBF, 0xC0, rng.getrandbits(8))) for _ in range(rng.randrange(0, 5)))
+        else:
+            s = bytes(rng.getrandbits(8) for _ in range(rng.randrange(1, 6)))
+        cases.append('nx ' + hexs(s))
+    for _ in range(ctx.scale(3000, 30000)):
+        cases.append('enc %x' % rng.choice((rng.randrange(0, 0x800), rng.randrange(0x800, 0x10000), rng.randrange(0x10000, 0x110000),
+                                             rng.randrange(0x110000, 0x200000), rng.randrange(0xD7F0, 0xE010))))
+    # ---- whole-string validators and counters ----
+    for _ in range(ctx.scale(7000, 100000)):
+        n = rng.choice((0, 1, 2, 3, 5, 8, 13, 21, 40))
+        r = rng.random()
+        s = mix(rng, n, 0.0, 0.0) if r < 0.35 else mix(rng, n, 0.0, 0.15) if r < 0.55 else mix(rng, n, 0.12, 0.05)
+        if rng.random() < 0.15 and s:
+            s = s[:rng.randrange(0, len(s) + 1)]           # cut anywhere (truncation at the end)
+        c0 = rng.choice((0, 0, 0, 1, 7, 1000, 2 ** 32 - 1, 2 ** 40))
+        h = hexs(s)
+        cases.append('val %d %d %s' % (rng.getrandbits(1), c0, h))
+        if rng.random() < 0.4:
+            cases.append('val 0 %d %s' % (c0, h))
+            cases.append('val 1 %d %s' % (c0, h))
+        if rng.random() < 0.3:
+            cases.append('vu8 %d %s' % (c0, h))
+        if rng.random() < 0.3:
+            cases.append('u2u ' + h)
+    for ln in ([1000, 4096, 65536] if ctx.quick() else [1000, 4096, 65536, 65537, 300000]):
+        for pb in (0.0, 0.0005):
+            s = mix(rng, ln // 2, pb, 0.0)
+            cases.append('val 1 0 ' + hexs(s))
+            cases.append('val 0 3 ' + hexs(s + b'\xf0\x9f\x98'))
+            cases.append('vu8 0 ' + hexs(s))
+    # ---- names: dispatch ----
+    for nm in TABLE_NAMES:
+        for v in name_variants(rng, nm, ctx.scale(4, 20)):
+            cases.append('cmp ' + hexs(v))
+    for nm in UNKNOWN_NAMES:
+        cases.append('cmp ' + hexs(nm))
+    for _ in range(ctx.scale(300, 3000)):
+        base = rng.choice(TABLE_NAMES).encode()
+        v = bytearray(base)
+        r = rng.random()
+        if r < 0.4 and v:
+            v[rng.randrange(len(v))] = rng.choice(b'0123456789abcxyzABZ-_')
+        elif r < 0.7:
+            v.insert(rng.randrange(len(v) + 1), rng.choice(b'0123456789abz'))
+        elif v:
+            del v[rng.randrange(len(v))]
+        cases.append('cmp ' + hexs(bytes(v)))
+    # ---- single-byte code pages: all bytes, all byte pairs, strings ----
+    for nm in TABLE_NAMES:
+        for v in name_variants(rng, nm, 1)[:3]:
+            cases.append('sb1 ' + hexs(v))
+        if nm == 'utf8':
+            continue
+        for a in range(256):
+            cases.append('sb2 %s %02x' % (hexs(nm.encode()), a))
+        for v in name_variants(rng, nm, 2):
+            for _ in range(ctx.scale(6, 40)):
+                n = rng.choice((0, 1, 2, 5, 17, 64))
+                s = sb_string(rng, nm, n, rng.choice((0.0, 0.0, 0.05, 0.3)))
+                cases.append('vnm %s %d %s' % (hexs(v), rng.choice((0, 0, 5, 2 ** 33)), hexs(s)))
+            for _ in range(ctx.scale(6, 40)):
+                n = rng.choice((0, 1, 2, 5, 17, 64))
+                s = sb_string(rng, nm, n, rng.choice((0.0, 0.05, 0.3, 1.0)))
+                ref = sb_ref(nm)
+                okb = [b for b in range(256) if ref[b]]
+                repl = rng.choice((0, 0, 0x3F, 0x20, rng.choice(okb), rng.getrandbits(8)))
+                cases.append('flt %s %02x %s' % (hexs(v), repl, hexs(s)))
+    # ---- UTF-8 by name and the UTF-8 filter ----
+    u8names = name_variants(rng, 'utf8', 6)
+    for _ in range(ctx.scale(2500, 30000)):
+        s = mix(rng, rng.choice((0, 1, 2, 3, 8, 20)), rng.choice((0.0, 0.1, 0.3)), rng.choice((0.0, 0.1)))
+        cases.append('vnm %s %d %s' % (hexs(rng.choice(u8names)), rng.choice((0, 0, 9)), hexs(s)))
+    for _ in range(ctx.scale(9000, 120000)):
+        n = rng.choice((0, 1, 2, 3, 4, 6, 10, 25))
+        r = rng.random()
+        s = mix(rng, n, 0.0, 0.0) if r < 0.15 else mix(rng, n, 0.25, 0.1) if r < 0.7 else mix(rng, n, 0.7, 0.2)
+        if rng.random() < 0.2 and s:
+            s = s[:rng.randrange(0, len(s) + 1)]
+        repl = rng.choice((0, 0, 0, 0x3F, 0x3F, 0x20, 0x58, 0x09, 0x7E, 0x01, 0x7F, 0x80, 0xFF, rng.getrandbits(8)))
+        cases.append('flt %s %02x %s' % (hexs(rng.choice(u8names)), repl, hexs(s)))
+    for ln in ([2000] if ctx.quick() else [2000, 8000]):
+        s = mix(rng, ln // 2, 0.01, 0.01)
+        cases.append('flt 75746638 3f ' + hexs(s))
+        cases.append('flt 75746638 00 ' + hexs(s))
+    return cases
+
+
+FORM_LOCALES = [b'en_US.UTF-8', b'en_US.utf8', b'de_DE.UTF-8@euro', b'ja_JP.Utf-8', b'en_US.ISO8859-1', b'he_IL.ISO8859-8', b'ar_EG.iso88596',
+                b'ru_RU.CP1251', b'ru_RU.KOI8-R', b'el_GR.windows-1253', b'en_US.windows-1252', b'C', b'en_US', b'en_US.US-ASCII']
+
+
+def locale_encoding(loc):
+    """booster::locale::util::locale_data: lang_COUNTRY.encoding@variant; no encoding given = us-ascii"""
+    if b'.' not in loc:
+        return 'usascii'
+    return norm_name(loc.split(b'.', 1)[1].split(b'@')[0])
+
+
+def gen_form_cases(ctx):
+    rng = ctx.rng
+    cases = []
+    for _ in range(ctx.scale(2500, 25000)):
+        loc = rng.choice(FORM_LOCALES)
+        enc = locale_encoding(loc)
+        n = rng.choice((0, 1, 2, 3, 4, 5, 8))
+        if enc == 'utf8':
+            r = rng.random()
+            v = mix(rng, n, 0.0, 0.0) if r < 0.6 else mix(rng, n, 0.0, 0.3) if r < 0.75 else mix(rng, n, 0.3, 0.0)
+            ncp = len(v.decode('utf-8', 'replace'))
+        else:
+            v = sb_string(rng, enc, n, rng.choice((0.0, 0.0, 0.2)))
+            ncp = len(v)
+        # limits around the number of code points and around the number of bytes
+        piv = rng.choice((ncp, len(v)))
+        low = max(0, piv + rng.choice((-1, 0, 0, 1, -piv)))
+        high = rng.choice((-1, piv - 1, piv, piv, piv + 1, len(v)))
+        if high < -1:
+            high = -1
+        cs = 0 if rng.random() < 0.15 else 1
+        cases.append('frm %s %d %d %d %s' % (hexs(loc), low, high, cs, hexs(v)))
+    return cases
+
+
+def form_oracle(case, out):
+    c = case.split()
+    o = out.split()
+    if out.startswith('<crash'):
+        return ('crash-frm', 'form harness died: ' + out)
+    if len(o) != 4 or o[0] != 'frm' or o[1] not in '01':
+        return ('bad-output-frm', 'unexpected harness answer ' + out[:200])
+    loc, low, high, cs, v = unhex(c[1]), int(c[2]), int(c[3]), c[4] == '1', unhex(c[5])
+    enc = locale_encoding(loc)
+    if unhex(o[3]) != v:
+        return ('form-value-changed', 'the widget holds a different value than was submitted')
+    if not cs:
+        valid, n = True, len(v)
+    elif enc == 'utf8':
+        n = ref_valid(v, True)
+        valid = n is not None
+    elif enc in TABLE:
+        ref = sb_ref(enc)
+        valid, n = all(ref[b] for b in v), len(v)
+    else:
+        return None
+    if (o[2] == '1') != valid:
+        return ('form-text-charset', 'text widget (%s) %s a value that is %s' % (enc, 'accepted' if o[2] == '1' else 'rejected', 'invalid' if not valid else 'valid'))
+    exp = valid and low <= n and (high < 0 or n <= high)
+    if (o[1] == '1') != exp:
+        return ('form-text-length-limit', 'text widget with limits %d..%d %s a valid value of %s characters (%d bytes)' % (
+            low, high, 'accepted' if o[1] == '1' else 'rejected', n, len(v)))
+    return None
+
+
+def gen_fallback_cases(ctx):
+    """names without a built-in validator go through iconv/ICU (not modelled): oracle only"""
+    rng = ctx.rng
+    cases = []
+    for nm in (b'windows-1254', b'cp1254'):
+        for b in range(256):
+            cases.append('vnm %s 0 %02x' % (hexs(nm), b))
+        for _ in range(ctx.scale(50, 500)):
+            s = bytes(rng.getrandbits(8) if rng.random() < 0.1 else rng.randrange(0x20, 0x7F) for _ in range(rng.randrange(0, 30)))
+            cases.append('vnm %s 4 %s' % (hexs(nm), hexs(s)))
+    return cases
+
+
+# ------------------------------------------------------------------------------------------------
+# oracle: the property evaluated on the implementation's answer alone
+# ------------------------------------------------------------------------------------------------
+def check_three(s, txt):
+    parts = txt.split('/')
+    if len(parts) != 3:
+        return ('bad-output-nx', 'unexpected decoder answer ' + txt)
+    ref = ref_next(s)
+    res = []
+    for part in parts:
+        if ':' in part:
+            cp, k = part.split(':')
+            res.append((int(cp, 16), int(k)))
+        elif part[:1] in ('i', 'n'):
+            res.append(None)
+        else:
+            return ('bad-output-nx', 'unexpected decoder answer ' + txt)
+    names = ('cppcms::utf8::next(html=false)', 'cppcms::utf8::next(html=true)', 'booster utf_traits<char>::decode')
+    for i in (0, 2, 1):
+        expect = ref if (i != 1 or (ref and html_safe(ref[0]))) else None
+        got = res[i]
+        if got is not None and ref is None:
+            return ('utf8-accepts-' + why_malformed(s), '%s returned U+%04X for %s, which is not a UTF8-char of RFC 3629' % (names[i], got[0], s.hex()))
+        if got is not None and expect is None:
+            return ('utf8-html-accepts-control', '%s returned U+%04X (a C0/C1 control or DEL) in HTML-safe mode' % (names[i], got[0]))
+        if got is None and expect is not None:
+            return ('utf8-rejects-wellformed', '%s rejected %s = U+%04X' % (names[i], s[:ref[1]].hex(), ref[0]))
+        if got is not None and got != expect:
+            return ('utf8-wrong-code-point', '%s returned U+%04X consuming %d bytes for %s (expected U+%04X, %d bytes)' % (
+                names[i], got[0], got[1], s.hex(), expect[0], expect[1]))
+    if (res[0] is None) != (res[2] is None) or (res[0] and res[0] != res[2]):
+        return ('decoders-disagree', 'the framework decoder and the support-library decoder disagree on ' + s.hex())
+    if parts[2].startswith('n') and len(s) >= 4:
+        return ('incomplete-with-4-bytes', 'support-library decoder reports incomplete although four bytes were available')
+    return None
+
+
+def grid_seqs(a, b):
+    out = [bytes([a, b])]
+    out += [bytes([a, b, c]) for c in GRIDV]
+    out += [bytes([a, b, c, d]) for c in GRIDV for d in GRIDV]
+    return out
+
+
+def oracle(case, out):
+    c = case.split()
+    o = out.split()
+    op = c[0]
+    if out.startswith('<crash'):
+        return ('crash-' + op, 'harness died on this input: ' + out)
+    if len(o) < 2 or o[0] != op or 'BAD-CASE' in out:
+        return ('bad-output-' + op, 'unexpected harness answer ' + out[:200])
+    if 'PATHS-DIFFER' in out:
+        return (op + '-entry-points-differ', 'two entry points of the same function disagree: ' + out[:200])
+    if op == 'nx':
+        return check_three(unhex(c[1]), o[1])
+    if op == 'grid':
+        seqs = grid_seqs(int(c[1], 16), int(c[2], 16))
+        rs = o[1].split(',')
+        if len(rs) != len(seqs):
+            return ('bad-output-grid', 'wrong number of answers')
+        for s, t in zip(seqs, rs):
+            r = check_three(s, t)
+            if r:
+                return r
+        return None
+    if op in ('val', 'vu8'):
+        html = True if op == 'vu8' else c[1] == '1'
+        c0 = int(c[-2])
+        s = unhex(c[-1])
+        ok, cnt = o[1] == '1', int(o[2])
+        n = ref_valid(s, html)
+        if ok and n is None:
+            if ref_cps(s) is None:
+                return ('validate-accepts-malformed', 'utf8::validate accepted a string that is not well-formed UTF-8')
+            return ('validate-html-accepts-control', 'HTML-safe validation accepted a C0/C1 control or DEL')
+        if not ok and n is not None:
+            return ('validate-rejects-wellformed', 'utf8::validate rejected a well-formed string')
+        if ok and cnt != (c0 + n) % 2 ** 64:
+            return ('validate-count-wrong', 'reported count %d, expected %d + %d code points' % (cnt, c0, n))
+        return None
+    if op == 'vnm':
+        nn = norm_name(unhex(c[1]))
+        c0 = int(c[2])
+        s = unhex(c[3])
+        ok, cnt = o[1] == '1', int(o[2])
+        if nn == 'utf8':
+            n = ref_valid(s, True)
+            if ok != (n is not None):
+                return ('named-utf8-valid-wrong', 'encoding::valid(utf-8) %s a string that is %s' % ('accepted' if ok else 'rejected', 'invalid' if ok else 'valid'))
+            if ok and cnt != c0 + n:
+                return ('named-count-wrong', 'count %d, expected %d' % (cnt, c0 + n))
+            return None
+        if nn == 'windows1254' or nn == 'cp1254':
+            ref = _cp1254_ref()
+        elif nn in TABLE:
+            ref = sb_ref(nn)
+        else:
+            return None
+        exp = all(ref[b] for b in s)
+        if ok != exp:
+            return ('single-byte-valid-wrong', 'encoding::valid(%s) %s %s' % (nn, 'accepted' if ok else 'rejected', s.hex()))
+        if ok and cnt != c0 + len(s):
+            return ('named-count-wrong', 'count %d, expected %d' % (cnt, c0 + len(s)))
+        return None
+    if op == 'sb1':
+        nn = norm_name(unhex(c[1]))
+        got = bits_to_bools(o[1])
+        if nn == 'utf8':
+            ref = [b < 0x80 and html_safe(b) for b in range(256)]
+        elif nn in TABLE:
+            ref = sb_ref(nn)
+        else:
+            return None
+        for b in range(256):
+            if got[b] != ref[b]:
+                if 0x20 <= b <= 0x7E or b in (9, 10, 13):
+                    return ('single-byte-rejects-ascii-text', '%s rejects byte 0x%02x' % (nn, b))
+                if b < 0x20:
+                    return ('single-byte-accepts-c0', '%s accepts C0 control 0x%02x' % (nn, b))
+                if b == 0x7F:
+                    return ('single-byte-accepts-del', '%s accepts DEL' % nn)
+                if 0x80 <= b <= 0x9F and nn in ISO_NAMES:
+                    return ('single-byte-accepts-c1', '%s accepts C1 control 0x%02x' % (nn, b))
+                return ('single-byte-code-page-table', '%s %s byte 0x%02x; the code page says otherwise' % (nn, 'accepts' if got[b] else 'rejects', b))
+        return None
+    if op == 'sb2':
+        pair, va, single = bits_to_bools(o[1]), o[2] == '1', bits_to_bools(o[3])
+        for b in range(256):
+            if pair[b] != (va and single[b]):
+                return ('single-byte-context-dependent', 'valid(%s %02x) differs from valid(%s) && valid(%02x)' % (c[2], b, c[2], b))
+        return None
+    if op == 'enc':
+        cp = int(c[1], 16)
+        if cp < 0x110000 and not (0xD800 <= cp <= 0xDFFF):
+            e = chr(cp).encode('utf-8')
+            if unhex(o[1]) != e:
+                return ('encode-wrong', 'utf8::encode(U+%04X) = %s' % (cp, o[1]))
+            if int(o[2]) != len(e):
+                return ('width-wrong', 'utf8::width(U+%04X) = %s' % (cp, o[2]))
+        return None
+    if op == 'flt':
+        nn = norm_name(unhex(c[1]))
+        repl = int(c[2], 16)
+        s = unhex(c[3])
+        if nn == 'utf8':
+            valid = ref_valid(s, True) is not None
+            good = lambda t: ref_valid(t, True) is not None
+            repl_ok = repl == 0 or (repl < 0x80 and html_safe(repl))
+        elif nn in TABLE:
+            ref = sb_ref(nn)
+            valid = all(ref[b] for b in s)
+            good = lambda t: all(ref[b] for b in t)
+            repl_ok = repl == 0 or ref[repl]
+        else:
+            return None
+        if o[1] == 'valid':
+            if len(o) > 2:
+                return ('filter-touches-valid-text', 'validate_or_filter returned true but modified the output string')
+            if not valid:
+                return ('filter-passes-invalid-text', 'validate_or_filter(%s) returned true for invalid text' % nn)
+            return None
+        if valid:
+            return ('filter-rejects-valid-text', 'validate_or_filter(%s) returned false for valid text' % nn)
+        t = unhex(o[2])
+        if repl_ok and not good(t):
+            return ('filter-output-invalid', 'filtered text is not valid %s' % nn)
+        if repl == 0 and not is_subseq(t, s):
+            return ('filter-invents-bytes', 'filtered text (no replacement character) is not a subsequence of the input')
+        if nn != 'utf8' and repl != 0 and len(t) != len(s):
+            return ('filter-length', 'single-byte filter with a replacement character changed the length')
+        if nn == 'utf8' and t != ref_filter_utf8(s, repl):
+            return ('filter-resynchronisation', 'filtered text differs from the token-wise image of the input (valid characters kept, an unsafe '
+                    'character replaced as a whole, one byte replaced where no character starts): expected ' + hexs(ref_filter_utf8(s, repl)))
+        if nn != 'utf8' and t != b''.join(bytes([b]) if ref[b] else (bytes([repl]) if repl else b'') for b in s):
+            return ('filter-bytewise', 'single-byte filter output is not the input with each rejected byte replaced')
+        return None
+    if op == 'cmp':
+        exp = norm_name(unhex(c[1])) in TABLE
+        if (o[1] == '1') != exp:
+            return ('encoding-name-dispatch', 'is_ascii_compatible(%r) = %s' % (unhex(c[1]), o[1]))
+        return None
+    if op == 'u2u':
+        s = unhex(c[1])
+        cps = ref_cps(s)
+        skip = unhex(o[1])
+        if ref_cps(skip) is None:
+            return ('utf_to_utf-output-invalid', 'utf_to_utf<char,char>(skip) produced malformed UTF-8')
+        if cps is not None and skip != s:
+            return ('utf_to_utf-changes-valid', 'utf_to_utf<char,char>(skip) changed well-formed text')
+        if not is_subseq(skip, s):
+            return ('utf_to_utf-invents-bytes', 'utf_to_utf<char,char>(skip) output is not a subsequence of the input')
+        if (o[2] == 'throw') != (cps is None):
+            return ('utf_to_utf-stop-wrong', 'utf_to_utf<char,char>(stop) %s' % ('threw on valid text' if cps is not None else 'accepted malformed text'))
+        if cps is not None and unhex(o[2]) != s:
+            return ('utf_to_utf-changes-valid', 'utf_to_utf<char,char>(stop) changed well-formed text')
+        return None
+    return ('bad-case', 'unknown case ' + case[:100])
+
+
+_CP1254 = []
+
+
+def _cp1254_ref():
+    if not _CP1254:
+        for b in range(256):
+            if b in (9, 10, 13):
+                ok = True
+            elif b < 0x20 or b == 0x7F:
+                ok = False
+            elif b < 0x7F:
+                ok = True
+            else:
+                try:
+                    ch = ord(bytes([b]).decode('cp1254'))
+                    ok = not (0x80 <= ch <= 0x9F)
+                except UnicodeDecodeError:
+                    ok = False
+            _CP1254.append(ok)
+    return _CP1254
+
+
+def nontrivial(case, out):
+    c = case.split()
+    op = c[0]
+    if op in ('grid', 'sb1', 'sb2', 'cmp'):
+        return True
+    if op == 'enc':
+        return int(c[1], 16) >= 0x80
+    if c[-1] == '-':
+        return False
+    s = unhex(c[-1])
+    if op == 'flt':
+        return 'filtered' in out
+    return any(b >= 0x80 or (b < 0x20) or b == 0x7F for b in s)
+
+
+def classify(case, out):
+    c = case.split()
+    op = c[0]
+    if op == 'nx':
+        n = 0 if c[1] == '-' else len(c[1]) // 2
+        return 'nx:len%s:%s' % (n if n < 5 else '5+', 'cp' if ':' in out.split('/')[0] else 'illegal')
+    if op in ('val', 'vu8', 'vnm'):
+        return op + (':valid' if out.split()[1] == '1' else ':invalid')
+    if op == 'flt':
+        return 'flt:' + ('utf8' if norm_name(unhex(c[1])) == 'utf8' else 'single-byte') + ':' + out.split()[1]
+    if op == 'u2u':
+        return 'u2u:' + ('throw' if out.endswith('throw') else 'ok')
+    if op == 'cmp':
+        return 'cmp:' + out.split()[-1]
+    return op
+
+
+# ------------------------------------------------------------------------------------------------
+# thorough tier: native exhaustive sweep, coqchk
+# ------------------------------------------------------------------------------------------------
+def sweep_expect():
+    """expected (accepted, accepted in HTML mode, sum of code points) per sweep case, from Python's own encoder over all scalar values"""
+    # stats[(lead, second or None)][len] = [count, html_count, cp_sum]
+    st = {}
+    for cp in itertools.chain(range(0, 0xD800), range(0xE000, 0x110000)):
+        e = chr(cp).encode('utf-8')
+        key = (e[0], e[1] if len(e) > 1 else None)
+        d = st.setdefault(key, {}).setdefault(len(e), [0, 0, 0])
+        d[0] += 1
+        d[1] += 1 if html_safe(cp) else 0
+        d[2] += cp
+    exp = {}
+    for lead in range(256):
+        # 1..3 bytes available, prefix = [lead]
+        for avail in (1, 2, 3):
+            a = h = sm = 0
+            for (l0, l1), d in st.items():
+                if l0 != lead:
+                    continue
+                for ln, (cnt, hc, cs) in d.items():
+                    if ln <= avail:
+                        w = 256 ** (avail - ln)
+                        a += cnt * w
+                        h += hc * w
+                        sm += cs * w
+            exp['sw%d %02x' % (avail, lead)] = (256 ** (avail - 1), a, h, sm)
+        for second in range(256):
+            a = h = sm = 0
+            for key in ((lead, None), (lead, second)):
+                for ln, (cnt, hc, cs) in st.get(key, {}).items():
+                    w = 256 ** (4 - max(ln, 2))
+                    a += cnt * w
+                    h += hc * w
+                    sm += cs * w
+            exp['sw4 %02x %02x' % (lead, second)] = (65536, a, h, sm)
+    return exp
+
+
+SW_RE = re.compile(r'(sw\d) n=(\d+) acc=(\d+) acch=(\d+) accb=(\d+) sum=(\d+) mism=(\d+) first=(\S+)$')
+_SWEXP = {}
+
+
+def make_sw_oracle(follow):
+    def sw_oracle(case, out):
+        if out.startswith('<crash'):
+            return ('crash-sweep', 'the decoder harness died (AddressSanitizer: read outside the input?) in block %s: %s' % (case, out[:600]))
+        m = SW_RE.match(out)
+        if not m:
+            return ('bad-output-sweep', out[:200])
+        n, a, h, b, sm, mism = (int(m.group(i)) for i in range(2, 8))
+        if mism:
+            follow.append('nx ' + m.group(8))
+            return ('utf8-sweep-mismatch', '%d of the %d sequences of block %s are decoded differently from the table-driven reference, first %s' % (
+                mism, n, case, m.group(8)))
+        if not _SWEXP:
+            _SWEXP.update(sweep_expect())
+        en, ea, eh, es = _SWEXP[case]
+        if (n, a, h, b, sm) != (en, ea, eh, ea, es):
+            return ('utf8-sweep-count', 'block totals n/acc/html/booster/sum = %s, expected %s' % ((n, a, h, b, sm), (en, ea, eh, ea, es)))
+        return None
+    return sw_oracle
+
+
+ASAN_FLAGS = ['-O1', '-fsanitize=address', '-fno-omit-frame-pointer']
+ASAN_ENV = {'ASAN_OPTIONS': 'detect_leaks=0:abort_on_error=0:exitcode=66'}
+
+
+def run_sweep(ctx, native4):
+    """ASan build: every sequence of length 1..3 on exactly sized heap blocks; native build (thorough): every sequence of length 4"""
+    follow = []
+    orc = make_sw_oracle(follow)
+    t0 = time.time()
+    ev0 = ctx.coverage.get('evaluations', 0)
+    short = ['sw%d %02x' % (k, a) for k in (1, 2, 3) for a in range(256)]
+    # interleave so that the parallel runner gives every worker the same mix of cheap and expensive blocks
+    short.sort(key=lambda c: (int(c.split()[1], 16) * 7919) % 256)
+    exe, err = vlib.build_harness('C14_sweep_asan', ['C14_sweep.cpp'], link=False, extra=ASAN_FLAGS)
+    if not exe:
+        ctx.broke('sweep harness (ASan) build failed', err)
+        return follow
+    # the generic runner parallelises only lists of >= 2000 lines: split by hand
+    import concurrent.futures
+    parts = [short[i::8] for i in range(8)]
+    with concurrent.futures.ThreadPoolExecutor(8) as ex:
+        rs = list(ex.map(lambda part: vlib.run_lines(exe, part, env=ASAN_ENV), parts))
+    nseq = 0
+    for part, (rc, out, errtxt) in zip(parts, rs):
+        if len(out) != len(part):
+            bad = part[len(out)] if len(out) < len(part) else part[-1]
+            ctx.broke('ASan sweep harness produced %d lines for %d blocks (rc=%s)' % (len(out), len(part), rc), errtxt[-3000:])
+            r = orc(bad, '<crash rc=%s> %s' % (rc, errtxt[:600].replace('\n', ' | ')))
+            ctx.fail(r[0], r[1], bad)
+            continue
+        for c, o in zip(part, out):
+            r = orc(c, o)
+            if r:
+                ctx.fail(r[0], r[1] + '\n  case: %s\n  impl: %s' % (c, o), c)
+            nseq += 256 ** (int(c[2]) - 1)
+    ctx.coverage['evaluations'] = ev0 + len(short)
+    sw = {'asan_short': {'blocks': len(short), 'sequences': nseq, 'decoder_calls': 3 * nseq, 'wall_s': round(time.time() - t0, 1),
+                         'what': 'every byte sequence of length 1, 2 and 3, each on a heap block of exactly its length, through cppcms::utf8::next '
+                                 '(both modes) and booster decode built with AddressSanitizer, against the table-driven RFC 3629 reference of '
+                                 'harness/C14_sweep.cpp; block totals against totals computed in Python from its own encoder'}}
+    if native4:
+        t1 = time.time()
+        exe4, err = vlib.build_harness('C14_sweep', ['C14_sweep.cpp'], link=False, extra=['-O2'])
+        if not exe4:
+            ctx.broke('sweep harness build failed', err)
+        else:
+            cases = ['sw4 %02x %02x' % (a, b) for b in range(256) for a in range(256)]
+            vlib.differential(ctx, cases, exe4, None, orc, lambda c, o: True, lambda c, o: c.split()[0])
+            sw['native_len4'] = {'blocks': len(cases), 'sequences': 2 ** 32, 'decoder_calls': 3 * 2 ** 32, 'wall_s': round(time.time() - t1, 1),
+                                 'what': 'every 4-byte sequence through the same three entry points, natively (-O2), same reference and totals'}
+    ctx.coverage['sweep'] = sw
+    return follow
+
+
+def run_coqchk(ctx):
+    """coqchk -o: the compiled proofs are re-checked by the independent checker; its axiom list goes into the evidence"""
+    t0 = time.time()
+    info = {}
+
+    def chk(mods, timeout, lock=False):
+        # coqchk only reads .vo files: it runs without the shared build lock (it takes minutes and would block every
+        # other build); a .vo rewritten underneath it makes it fail, hence one retry under the lock for our own closure
+        cmd = ['coqchk', '-silent', '-o', '-Q', vlib.COQ, 'CppcmsV'] + mods
+        if lock:
+            with vlib.Lock('coq'):
+                p = vlib.sh(cmd, cwd=vlib.COQ, timeout=timeout)
+        else:
+            p = vlib.sh(cmd, cwd=vlib.COQ, timeout=timeout)
+        txt = (p.stdout + p.stderr).decode(errors='replace')
+        i = txt.find('CONTEXT SUMMARY')
+        return p.returncode, (txt[i:] if i >= 0 else txt[-1500:])
+    try:
+        rc, summ = chk(['CppcmsV.C14.Props'], 900)
+        if rc != 0:
+            rc, summ = chk(['CppcmsV.C14.Props'], 900, lock=True)
+    except Exception as e:
+        rc, summ = 99, 'coqchk did not finish: %r' % e
+    info['cmd'] = 'coqchk -silent -o -Q coq CppcmsV CppcmsV.C14.Props'
+    info['rc'] = rc
+    info['context_summary'] = [l.strip() for l in summ.split('\n') if l.strip() and not set(l.strip()) <= set('=')]
+    m = re.search(r'\* Axioms:\s*(.*?)\n\s*\n\* Constants', summ, flags=re.S)
+    info['axioms'] = m.group(1).strip() if m else 'unparsed'
+    if rc != 0:
+        ctx.broke('coqchk rejected the compiled C14 proofs', summ[-2000:])
+    elif info['axioms'] != '<none>':
+        ctx.broke('coqchk reports axioms in the closure of C14/Props.vo: ' + info['axioms'][:500])
+    # the rest of the project (other properties, built by others; informative only)
+    mods = []
+    for f in sorted(glob.glob(os.path.join(vlib.COQ, '*', '*.vo'))):
+        rel = os.path.relpath(f, vlib.COQ)[:-3]
+        if os.path.exists(os.path.join(vlib.COQ, rel + '.v')) and os.path.getmtime(f) >= os.path.getmtime(os.path.join(vlib.COQ, rel + '.v')):
+            mods.append('CppcmsV.' + rel.replace('/', '.'))
+    info['project_modules'] = len(mods)
+    if os.environ.get('C14_COQCHK_PROJECT', '1') != '0':
+        # other properties' directories are being rebuilt by other people at any moment: a directory whose .vo files are
+        # mutually inconsistent is dropped and the rest re-checked (time budget 300 s in total)
+        t1 = time.time()
+        excluded = []
+        proj = {'rc': None}
+        while time.time() - t1 < 300:
+            try:
+                rc2, summ2 = chk(mods, max(30, int(300 - (time.time() - t1))))
+            except Exception as e:
+                proj = {'rc': None, 'note': 'coqchk over the %d compiled modules did not finish within the time budget (%s)' % (len(mods), type(e).__name__)}
+                break
+            m2 = re.search(r'\* Axioms:\s*(.*?)\n\s*\n\* Constants', summ2, flags=re.S)
+            proj = {'rc': rc2, 'modules_checked': len(mods), 'axioms': m2.group(1).strip() if m2 else summ2[-600:]}
+            if rc2 == 0:
+                break
+            bad = re.search(r'CppcmsV\.([A-Za-z0-9_]+)\.', summ2)
+            if not bad or bad.group(1) in ('C14', 'Base'):
+                break
+            excluded.append(bad.group(1))
+            mods = [x for x in mods if not x.startswith('CppcmsV.%s.' % bad.group(1))]
+        proj['excluded_dirs_with_inconsistent_vo'] = excluded
+        info['project'] = proj
+    info['wall_s'] = round(time.time() - t0, 1)
+    ctx.coverage['coqchk'] = info
+
+
+def run(ctx):
+    errs = gen_c14()
+    for n, e in errs:
+        ctx.broke('translator cxx2v failed on %s (tie to source broken)' % n, e)
+    res = vlib.coq_props('C14')
+    ctx.proof(res)
+    ctx.coverage['trusted_base'] = [
+        'Coq 8.16.1 kernel, vm_compute (256-point sweeps); no native_compute',
+        'tools/cxx2v.py + clang JSON AST, extended in checks/C14.py (validator loop body -> byte predicate, comparator loop body -> step function, '
+        '__builtin_expect); sources: private/utf_iterator.h, private/encoding_validators.h, booster/booster/locale/utf.h, src/encoding.cpp via harness/C14_tu.cpp',
+        'extraction: ExtrOcamlBasic only, OCaml 4.13.1',
+        'harness/C14_text.cpp, harness/C14_sweep.cpp (table-driven RFC 3629 reference), ocaml/C14_driver.ml, checks/C14.py (generators; oracles use '
+        'Python 3 strict UTF-8 decoding, a regular expression transcribed from the RFC 3629 ABNF, and the stdlib code-page tables)',
+        'hand model of the decoder switch, validate loops, validators_set table, validate_or_filter loops, utf_to_utf (coq/C14/Defs.v), tied by correspondence',
+        'coq/C14/Spec.v: transcription of the RFC 3629 section 4 ABNF and of the section 3 encoding table']
+    ctx.assumptions = ['bytes < 256; char is signed 8-bit and int at least 32 bits on this target (x86-64), as clang reports',
+                       'the replacement character of validate_or_filter is absent (0) or itself acceptable (HTML-safe ASCII for UTF-8; a byte the code page '
+                       'accepts for single-byte encodings); otherwise only `returns true iff valid` is claimed',
+                       'counts do not overflow size_t',
+                       'encode is modelled for values below 2^21',
+                       'names without a built-in validator (iconv/ICU fall-back) are outside the model']
+    exe, err = vlib.build_harness('C14_text', ['C14_text.cpp'])
+    if not exe:
+        ctx.broke('harness build failed', err)
+        return
+    mexe, err = vlib.build_model('C14', 'C14_driver.ml', 'c14m')
+    if not mexe:
+        ctx.broke('model extraction/build failed', err)
+    ctx.coverage['rule'] = (
+        'cases: op + hex arguments. Exhaustive: every byte sequence of length 0, 1, 2 through the three decoder entry points (nx); boundary grid '
+        'lead x second x {00,7F,80,BF,C0,FF}^{0,1,2} (grid; quick: leads C0..FF and 00,7F,80,BF, thorough: all 256 leads); all 256 single bytes for '
+        'every table name (sb1) and all 65536 byte pairs for each of the 36 single-byte names (sb2: 256 lines per name, each all 256 second bytes, '
+        'compared with the bytes judged alone). Structured/random (seeded): boundary code points with every truncation and +-1 byte neighbours; '
+        'strings composed of valid characters (all lengths, boundaries), control characters and 41 kinds of malformed pieces (over-long, surrogate, '
+        '> U+10FFFF, F5..FF, lone trail, truncated, bad trail) through validate (both modes, several incoming counts), valid_utf8, valid by name '
+        '(spelling variants of every table name incl. embedded NUL), validate_or_filter with replacement in {none, ?, space, X, tab, ~, 01, 7F, 80, FF, '
+        'random}, utf_to_utf skip/stop; encode/width for code points up to 2^21; name dispatch incl. near-miss names. Every tier: all sequences of '
+        'length 1..3 natively under ASan against a table-driven reference (one evaluation per block of 1/256/65536 sequences); thorough adds all 2^32 '
+        'sequences of length 4. Non-trivial: the input contains a byte outside printable ASCII (decoders, validators), the filter '
+        'had to change the text (flt), a non-ASCII code point (enc); grid/sb1/sb2/cmp lines always. distinct = distinct case lines.')
+    ctx.coverage['exhaustive'] = False
+    ctx.coverage['exhaustive_parts'] = ['all byte sequences of length 0..2 x 3 decoder entry points', 'all 256 bytes x 37 names', 'all 65536 byte pairs x 36 single-byte names']
+    if ctx.replay_cases is not None:
+        sw = [c for c in ctx.replay_cases if c.startswith('sw')]
+        cases = [c for c in ctx.replay_cases if not c.startswith('sw')]
+        if sw:
+            sexe, err = vlib.build_harness('C14_sweep_asan', ['C14_sweep.cpp'], link=False, extra=ASAN_FLAGS)
+            if not sexe:
+                ctx.broke('sweep harness (ASan) build failed', err)
+            else:
+                vlib.differential(ctx, sw, sexe, None, make_sw_oracle([]), impl_env=ASAN_ENV, parallel=False)
+        frm = [c for c in cases if c.startswith('frm ')]
+        cases = [c for c in cases if not c.startswith('frm ')]
+        if frm:
+            fexe, err = vlib.build_harness('C14_form', ['C14_form.cpp'], extra=['-I' + os.path.join(vlib.REPO, 'tests')])
+            if not fexe:
+                ctx.broke('form harness build failed', err)
+            else:
+                vlib.differential(ctx, frm, fexe, mexe, form_oracle)
+        fb = [c for c in cases if c.startswith('vnm ') and norm_name(unhex(c.split()[1])) in ('windows1254', 'cp1254')]
+        cases = [c for c in cases if c not in fb]
+        if cases:
+            vlib.differential(ctx, cases, exe, mexe, oracle, nontrivial, classify)
+        if fb:
+            vlib.differential(ctx, fb, exe, None, oracle, nontrivial, classify)
+        return
+    cases = vlib.corpus_cases('C14') + gen_cases(ctx)
+    vlib.differential(ctx, cases, exe, mexe, oracle, nontrivial, classify)
+    fexe, err = vlib.build_harness('C14_form', ['C14_form.cpp'], extra=['-I' + os.path.join(vlib.REPO, 'tests')])
+    if not fexe:
+        ctx.broke('form harness build failed', err)
+    else:
+        vlib.differential(ctx, gen_form_cases(ctx), fexe, mexe, form_oracle, lambda c, o: True, lambda c, o: 'frm:' + ' '.join(o.split()[1:3]),
+                          what='correspondence model vs form widget')
+    fb = gen_fallback_cases(ctx)
+    vlib.differential(ctx, fb, exe, None, oracle, nontrivial, lambda c, o: 'fallback:' + classify(c, o), what='fallback (oracle only)')
+    ctx.coverage['fallback_oracle_only'] = len(fb)
+    follow = run_sweep(ctx, native4=not ctx.quick())
+    if follow:
+        vlib.differential(ctx, sorted(set(follow))[:50], exe, mexe, oracle, nontrivial, classify)
+    ctx.coverage['exhaustive_parts'].append('all byte sequences of length 1..3 (2^24+2^16+2^8) x 3 decoder entry points under AddressSanitizer')
+    if not ctx.quick():
+        ctx.coverage['exhaustive_parts'].append('thorough: all 2^32 byte sequences of length 4 x 3 decoder entry points, natively')
+        run_coqchk(ctx)
